@@ -342,7 +342,7 @@ def run(tier: str) -> int:
     if tier == "quick":
         body(chk, n_programs=450, deep=2)
     else:
-        body(chk, n_programs=3000, deep=3, mc_nodes=3)
+        body(chk, n_programs=1500, deep=3, mc_nodes=2)
     chk.cov["rule"] = ("for every generated program (providers included) every index of a user-code invocation of its render is made "
                        "to raise (exhaustive per program), with exception classes rotating over str / int / errno / tuple / multi-line "
                        "first arguments; distinct by (program, fault index).")
